@@ -21,7 +21,7 @@ import (
 )
 
 func replayObligation(e *Engine, fr *FnResult, o *Obligation, rep map[string]any, verifDir string) (bool, string) {
-	if o.Inputs == nil || o.Kind != "post" {
+	if o.Inputs == nil || (o.Kind != "post" && o.Kind != "safety") {
 		return false, ""
 	}
 	var fn *ssa.Function
@@ -43,7 +43,7 @@ func replayObligation(e *Engine, fr *FnResult, o *Obligation, rep map[string]any
 			clause = c
 		}
 	}
-	if clause == nil {
+	if clause == nil && o.Kind != "safety" {
 		return false, "replay: clause not found"
 	}
 	// build the call
@@ -186,6 +186,9 @@ func TestZZTurnvcReplay(t *testing.T) {
 	var outs map[string]any
 	json.Unmarshal(data, &outs)
 	rep["replay_outputs"] = outs
+	if o.Kind == "safety" {
+		return false, "replay: the real function returned normally on the model's inputs (the run-time failure did not reproduce; slice capacities of the model may not be reproducible by a literal)"
+	}
 	// evaluate the clause on the concrete pair
 	fx := &FnCtx{eng: e, fn: fn, con: con, obls: map[string]*Obligation{}, heapSorts: map[string]string{}, unsup: map[string]bool{}, notes: map[string]bool{},
 		params: map[string]*Val{}, keySorts: map[string]string{}, locksTouched: map[string]bool{}, covers: map[string]bool{}, exercised: map[*AtCall]bool{}, ipdomCache: map[*ssa.Function]map[*ssa.BasicBlock]*ssa.BasicBlock{}, joinCache: map[joinKey]*ssa.BasicBlock{}, loops: map[*ssa.BasicBlock]*loopInfo{}}
